@@ -81,14 +81,13 @@ fn is_num_backup(base_file: &str, candidate: &Path) -> Option<u64> {
     let cname = candidate
         .file_name()?
         .to_str()?;
-    if !cname.starts_with(base_file) {
-        return None
-    }
-    let ext = candidate
-        .extension()?
-        .to_string_lossy();
+    // The candidate must be exactly `<base_file>.~N~`; a sibling
+    // that merely starts with the same characters is another file.
+    let ext = cname
+        .strip_prefix(base_file)?
+        .strip_prefix('.')?;
     let num = get_regex()
-        .captures(&ext)?
+        .captures(ext)?
         .get(1)?
         .as_str()
         .parse::<u64>()
